@@ -16,12 +16,16 @@ TN = ["t0", "t1", "t2"]
 
 def theta(kind, D, rng, extreme=False):
     sc = (lambda shape: rng.normal(size=shape) * (rng.choice([1e-3, 1.0, 3.0, 40.0], size=shape) if extreme else 1.0))
+    # the noise precision is a positive number of whatever numeric type the sampler or the file reader produced (float, int, numpy scalar)
+    prec = float(np.exp(rng.normal() * 2))
+    u = rng.random()
+    prec = prec if u < 0.6 else (int(rng.integers(2, 400)) if u < 0.8 else np.int64(rng.integers(2, 400)))
     if kind == "combo":
         return SparseDrugComboMCMCSample(W=sc((NS, D)), W0=sc((NS,)), V2=sc((NT, D)), V1=sc((NT, D)), V0=sc((NT,)),
-                                         alpha=float(rng.normal()), precision=float(np.exp(rng.normal() * 2)))
+                                         alpha=float(rng.normal()), precision=prec)
     lut = {(c, t): float(rng.uniform(0.005, 1.2)) for c in range(NS) for t in range(NT)}
     lut.update({(c, -1): 1.0 for c in range(NS)})
-    return SparseDrugComboInteractionMCMCSample(W=sc((NS, D)) * 0.3, V2=sc((NT, D)) * 0.3, precision=float(np.exp(rng.normal() * 2)), single_effect_lookup=lut)
+    return SparseDrugComboInteractionMCMCSample(W=sc((NS, D)) * 0.3, V2=sc((NT, D)) * 0.3, precision=prec, single_effect_lookup=lut)
 
 
 def env_of(th):
@@ -166,8 +170,13 @@ def run(ctx):
             hs.add_theta(t_)
         held = []         # results of earlier calls stay what they were, whatever is computed afterwards (no shared buffers)
         scr2 = screen_of([rows[i] for i in perm], arity, [plates[i] for i in perm])
+        from harness.util import verbose_logging
         for helper, single in ((MM.predict_mean_all, "predict_conditional_mean"), (MM.predict_viability_all, "predict_viability"), (MM.predict_variance_all, "predict_conditional_variance")):
+            with verbose_logging():                      # the same call with debug logging on returns the same numbers
+                stv, mv = outcome(helper, scr, hs)
             st, m = outcome(helper, scr, hs)
+            if stv != st or (st == "ok" and np.ascontiguousarray(mv).tobytes() != np.ascontiguousarray(m).tobytes()):
+                ctx.violation("%s returns something else when debug logging is switched on" % helper.__name__, {"kind": "helper", "helper": helper.__name__, "seed": ctx.seed})
             if st == "ok":
                 held.append((helper.__name__, m, np.ascontiguousarray(m).tobytes()))
                 st2, m2 = outcome(helper, scr2, hs)          # same shape, other rows
